@@ -15,11 +15,22 @@
    (3 spec root n fuel draw-lists)  the specification-level sampler on explicit draw sequences:
                                   (result trace number-of-unused-draws), payload = parse tree
    (4 spec root n fuel)           all draw sequences in the requested ranges: ((trace result) ...)
+   (5 pspec root n params fuel draw-lists)  the specification-level sampler WITH extra parameters
+                                  (Count/SampleModelParams.v) on explicit draw sequences, as (3 ..);
+       pspec = (classes tables), class = (kind min is_atom kids params minval eps fixed)
+               (params: the class's extra_parameters; minval: dict variable -> get_minimum_value;
+                eps / fixed: one dict per child: constructor.extra_parameters / fixed_values),
+       tables = per label, per size 0.. the Counter get_terms(size) as ((tuple count) ...);
+       params = the **parameters dictionary of the call
+   (6 pspec root n params fuel)   all draw sequences in the requested ranges: ((trace result) ...)
+   (7 first steps last)           EquivalencePathRule.constructor: first = extra_parameters of the first class,
+                                  steps = the dictionaries of the chain (Complement steps already inverted),
+                                  last = extra_parameters of the last class; answer (dictionary fixed_values)
    (9 (command ...))              several commands, answers in order
    In (2 ..) a rule whose count at size m is < 1 answers ValueError for every r: randint(1, 0) raises.
    tree = (0 c) | (1 c i t) | (2 c (t ...))                                                     *)
 From Coq Require Import ZArith List Bool.
-From CSS Require Import Base.Sx Gen.Prelude Count.SampleModel.
+From CSS Require Import Base.Sx Gen.Prelude Count.SampleModel Count.SampleModelParams.
 Import ListNotations.
 Open Scope Z_scope.
 
@@ -99,10 +110,44 @@ Definition run_steps (spec : sx) (N : Z) : sx :=
           else [])
        (seq 0 (spec_size spec))).
 
+(* specifications with extra parameters *)
+Definition dec_pcls (s : sx) : pcls :=
+  {| pk_kind := sx_Z (sx_nth s 0); pk_min := sx_Z (sx_nth s 1); pk_atom := sx_bool (sx_nth s 2);
+     pk_kids := sx_nats (sx_nth s 3); pk_params := sx_Zs (sx_nth s 4); pk_minval := dec_dict (sx_nth s 5);
+     pk_eps := map dec_dict (sx_list (sx_nth s 6)); pk_fixed := map dec_dict (sx_list (sx_nth s 7)) |}.
+Definition no_pcls : pcls :=
+  {| pk_kind := K_EMPTY; pk_min := 0; pk_atom := false; pk_kids := []; pk_params := []; pk_minval := [];
+     pk_eps := []; pk_fixed := [] |}.
+Definition pspec_rule (s : sx) : nat -> pcls :=
+  let l := map dec_pcls (sx_list (sx_nth s 0)) in fun c => nth c l no_pcls.
+Definition pspec_tab (s : sx) : nat -> Z -> list (list Z * Z) :=
+  let l := map (fun per_class => map (fun per_size => map (fun e => (sx_Zs (sx_nth e 0), sx_Z (sx_nth e 1)))
+                                                        (sx_list per_size))
+                                     (sx_list per_class))
+               (sx_list (sx_nth s 1)) in
+  fun c m => if m <? 0 then [] else nth (Z.to_nat m) (nth c l []) [].
+
+Definition enc_dict (d : dict) : sx := L (map (fun kv : Z * Z => L [I (fst kv); I (snd kv)]) d).
+
 Definition run_single (inp : sx) : sx :=
   match sx_Z (sx_nth inp 0) with
   | 0 => L (map run_item (sx_list (sx_nth inp 1)))
+  | 7 =>
+      let d := path_dict (sx_Zs (sx_nth inp 1)) (map dec_dict (sx_list (sx_nth inp 2))) in
+      L [enc_dict d; enc_dict (path_fixed (sx_Zs (sx_nth inp 3)) d)]
   | 2 => run_steps (sx_nth inp 1) (sx_Z (sx_nth inp 2))
+  | 5 =>
+      let spec := sx_nth inp 1 in
+      let m := pspec_sample (pspec_rule spec) (pspec_tab spec) (sx_nat (sx_nth inp 5))
+                            (sx_nat (sx_nth inp 2)) (sx_Z (sx_nth inp 3)) (dec_dict (sx_nth inp 4)) in
+      L (map (fun ds => let '(x, tr, rem) := run m (sx_Zs ds) in
+                        L [enc_res enc_tree x; enc_trace tr; I (zlen rem)])
+             (sx_list (sx_nth inp 6)))
+  | 6 =>
+      let spec := sx_nth inp 1 in
+      let m := pspec_sample (pspec_rule spec) (pspec_tab spec) (sx_nat (sx_nth inp 5))
+                            (sx_nat (sx_nth inp 2)) (sx_Z (sx_nth inp 3)) (dec_dict (sx_nth inp 4)) in
+      L (map (fun p : trace * res tree => L [enc_trace (fst p); enc_res enc_tree (snd p)]) (enum m))
   | 3 =>
       let spec := sx_nth inp 1 in
       let m := spec_sample (spec_rule spec) (spec_cnt spec) (sx_nat (sx_nth inp 4))
